@@ -95,6 +95,8 @@ func vhSDPMids(v vhVec, ufrag, pwd, fp string, given []string) string {
 		pts := "96 97"
 		if s.Kind == "audio" {
 			pts = "111"
+		} else if strings.HasPrefix(s.Fmtp, "params-") {
+			pts = "102 98 96 97"
 		}
 		switch s.Kind {
 		case "application":
@@ -143,6 +145,20 @@ func vhSDPMids(v vhVec, ufrag, pwd, fp string, given []string) string {
 			b.WriteString("a=fmtp:97 apt=55\r\n")
 		case "apt-garbage":
 			b.WriteString("a=fmtp:97 apt=;;=\r\na=fmtp:\r\n")
+		case "params-short", "params-empty", "params-odd":
+			// codecs the endpoint has, with format parameters cut short / without value / malformed
+			h264, vp9, opus := "packetization-mode=1;profile-level-id=42", "profile-id=", "minptime=1"
+			switch s.Fmtp {
+			case "params-empty":
+				h264, vp9, opus = "packetization-mode=1;profile-level-id=", "profile-id", "minptime=;useinbandfec"
+			case "params-odd":
+				h264, vp9, opus = "profile-level-id=42e;packetization-mode=1;;=;", "profile-id=x;=2;;", "=;;"
+			}
+			if s.Kind == "audio" {
+				b.WriteString("a=fmtp:111 " + opus + "\r\n")
+			} else {
+				b.WriteString("a=rtpmap:102 H264/90000\r\na=rtpmap:98 VP9/90000\r\na=fmtp:102 " + h264 + "\r\na=fmtp:98 " + vp9 + "\r\na=fmtp:97 apt=96\r\n")
+			}
 		}
 		switch s.Extmap {
 		case "ok":
@@ -272,6 +288,9 @@ func vhNewPC(t *testing.T, sem, me string) *PeerConnection {
 		for _, c := range []RTPCodecParameters{
 			{RTPCodecCapability: RTPCodecCapability{MimeType: MimeTypeVP8, ClockRate: 90000}, PayloadType: 96},
 			{RTPCodecCapability: RTPCodecCapability{MimeType: MimeTypeRTX, ClockRate: 90000, SDPFmtpLine: "apt=96"}, PayloadType: 97},
+			{RTPCodecCapability: RTPCodecCapability{MimeType: MimeTypeH264, ClockRate: 90000,
+				SDPFmtpLine: "level-asymmetry-allowed=1;packetization-mode=1;profile-level-id=42e01f"}, PayloadType: 102},
+			{RTPCodecCapability: RTPCodecCapability{MimeType: MimeTypeVP9, ClockRate: 90000, SDPFmtpLine: "profile-id=0"}, PayloadType: 98},
 		} {
 			if err := m.RegisterCodec(c, RTPCodecTypeVideo); err != nil {
 				t.Fatal(err)
